@@ -5,7 +5,7 @@ cd /verif || exit 2
 OUT=/verif/seeded/regression.txt; : > "$OUT"
 for d in seeded/*/; do
   id=$(basename "$d")
-  checks=$(python3 -c "import json,sys; m=json.load(open('$d/meta.json')); print(' '.join(m['caught_by'].keys()))")
+  checks=$(python3 -c "import json; m=json.load(open(\"/verif/$d/meta.json\")); print(\" \".join(m[\"caught_by\"].keys()))")
   cd /repo && git checkout -- . && git apply "/verif/$d/patch.diff" || { echo "$id: cannot apply" >> "$OUT"; continue; }
   cd /verif
   line="$id:"
